@@ -16,7 +16,7 @@ def gen(rng, tier):
             D = [rng.randint(0, 2) for _ in range(n)]; D[rng.randrange(n)] += (2 * g - 2) - sum(D)
         else: D = common.random_divisor(rng, G, band=band)
         if sum(D) > 7 or max(abs(x) for x in D) > 9: continue
-        out.append({"G": G, "D": D, "band": band, "pool": rng.choice(["raise", "raise", "inproc"]), "s": rng.randrange(1 << 30)})
+        out.append({"G": G, "D": D, "band": band, "pool": rng.choice(["raise", "raise", "inproc"] if i % 25 else ["real"]), "s": rng.randrange(1 << 30)})
     # multi-edge paths on 3 / 4 vertices with small effective divisors (the rank loop removes chips one by one: many sub-divisors with several debtors next
     # to heavy edges); quick: a sample, thorough: every path with multiplicities <= 3 x every divisor in the box {0,1,2}^n of degree <= 5
     import itertools
@@ -33,7 +33,9 @@ def impl(c):
     import chipfiring.CFRank as R
     from chipfiring import CFOrientation
     rng = random.Random(c["s"]); G = c["G"]
-    R.Pool = common.RaisingPool if c["pool"] == "raise" else common.InProcessPool
+    if c["pool"] == "real":
+        import multiprocessing; R.Pool = multiprocessing.Pool        # the library's own import: real worker processes (today the local worker function cannot be pickled and the code falls back)
+    else: R.Pool = common.RaisingPool if c["pool"] == "raise" else common.InProcessPool
     out = {}
     for key, fn, opt in (("plain", lambda d: R.rank(d).rank, False), ("opt", lambda d: R.rank(d, optimized=True).rank, True), ("r_plain", lambda d: R.r(d), False), ("r_opt", lambda d: R.r(d, optimized=True), True)):
         d = common.build_impl_divisor(G, c["D"], rng=rng); out[key] = fn(d)
